@@ -22,14 +22,16 @@ RULE = ("exhaustive: all queues (sequences of destination indices, 3 destination
         "queue (failing an absent destination is unobservable), then healthy passes; four variants: "
         "UdpStack.serviceTxPkts with a destination failing all its sends of the pass ('all') or only the "
         "first attempt ('first', so that a later packet to it would get through if the stack tried), "
-        "GramStack.serviceTxPkts ('all'), UdpStack.serviceTxPktsOnce (one packet per call, fault set per "
-        "call). N = 5/4/4/4 quick, 6/6/5/6 thorough. errno rotates over the nine transient errnos as a "
+        "GramStack.serviceTxPkts ('all'), UdpStack.serviceTxPktsOnce with a pass = as many one-packet calls as "
+        "packets are pending at its start ('once-pass'), and with one fault set per single call ('once-call'; "
+        "oracle: order, exactly-once, a call in which nothing fails sends a packet). N = 5/4/4/4/4 quick, "
+        "6/6/5/6/6 thorough. errno rotates over the nine transient errnos as a "
         "function of the case. non-trivial = some pass starts with packets queued for both a failing and a "
         "healthy destination; distinct = (variant, queue, fault sets)")
 ASSUMPTIONS = [
-    "a 'service pass' is one call of serviceTxPkts() (or one call of serviceTxPktsOnce() in the once variant)",
+    "a 'service pass' is one call of serviceTxPkts(); in the once-pass variant it is m consecutive calls of serviceTxPktsOnce() where m = packets pending at the start of the pass (enough calls to serve every queued packet once)",
     "'sent' = handler.send(data, ha) returned; a send that raised one of the transient errnos listed in GramStack._serviceOneTxPkt sent nothing",
-    "a failing destination 'blocks' another one when a packet queued for a destination that does not fail in a pass is not sent in that pass (serviceTxPkts variants only; the once variant only demands order, exactly-once and that n healthy calls drain n packets)",
+    "a failing destination 'blocks' another one when a packet queued for a destination that does not fail in a pass is not sent in that pass",
     "handler double implements reopen/close/opened/ha/send/receive only; all packets are queued with stack.transmit(pkt, ha) before the first pass",
 ]
 META = {
@@ -46,9 +48,9 @@ META = {
 ERRNOS = [errno.ECONNREFUSED, errno.ECONNRESET, errno.ENETRESET, errno.ENETUNREACH, errno.EHOSTUNREACH,
           errno.ENETDOWN, errno.EHOSTDOWN, errno.ETIMEDOUT, errno.ETIME]
 DESTS = [("127.0.0.1", 7001), ("127.0.0.1", 7002), ("127.0.0.1", 7003)]
-VARIANTS = ["udp-pkts-all", "udp-pkts-first", "gram-pkts-all", "udp-once"]
-NMAX = {"quick": {"udp-pkts-all": 5, "udp-pkts-first": 4, "gram-pkts-all": 4, "udp-once": 4},
-        "thorough": {"udp-pkts-all": 6, "udp-pkts-first": 6, "gram-pkts-all": 5, "udp-once": 6}}
+VARIANTS = ["udp-pkts-all", "udp-pkts-first", "gram-pkts-all", "udp-once-pass", "udp-once-call"]
+NMAX = {"quick": {"udp-pkts-all": 5, "udp-pkts-first": 4, "gram-pkts-all": 4, "udp-once-pass": 4, "udp-once-call": 4},
+        "thorough": {"udp-pkts-all": 6, "udp-pkts-first": 6, "gram-pkts-all": 5, "udp-once-pass": 6, "udp-once-call": 6}}
 
 
 class HandlerDouble(object):
@@ -95,7 +97,8 @@ def run_case(variant, q, masks):
     """q: list of destination indices; masks: per-pass bitmask of failing destinations.
     Returns (fails, nontrivial, errnos raised)."""
     from ioflo.aio.proto import packeting
-    once = variant == "udp-once"
+    once = variant.startswith("udp-once")
+    percall = variant == "udp-once-call"   # fault set per single serviceTxPktsOnce() call
     h = HandlerDouble()
     h.first_only = variant.endswith("first")
     try:
@@ -113,10 +116,11 @@ def run_case(variant, q, masks):
     fails = []
     nontrivial = False
     salt0 = n + sum(q) + sum(masks)
-    service = stack.serviceTxPktsOnce if once else stack.serviceTxPkts
-    # faulty passes, then healthy ones: one healthy pass must drain a serviceTxPkts stack; the once
-    # variant needs one healthy call per pending packet. Two extra calls detect re-sends.
-    schedule = list(masks) + [0] * ((n if once else 1) + 2)
+    # faulty passes, then healthy ones: one healthy pass must drain the stack; two more detect re-sends.
+    # In the once variant a pass is as many serviceTxPktsOnce() calls as packets are pending at its start
+    # (the number of calls that serves every queued packet when nothing fails).
+    # In the once-call variant every call has its own fault set; n + 2 healthy calls follow.
+    schedule = list(masks) + [0] * ((n + 2) if percall else 3)
     for p, mask in enumerate(schedule):
         failing = tuple(DESTS[d] for d in range(3) if mask >> d & 1)
         pending = [i for i in range(n) if not sent[i]]
@@ -127,7 +131,11 @@ def run_case(variant, q, masks):
         h.failing, h.attempted, h.salt = failing, set(), salt0 + 3 * p
         mark = len(h.log)
         try:
-            service()
+            if once:
+                for _ in range(1 if percall else max(1, len(pending))):
+                    stack.serviceTxPktsOnce()
+            else:
+                stack.serviceTxPkts()
         except Exception as ex:
             fails.append(("raise-%s@%s" % (type(ex).__name__, "serviceTxPktsOnce" if once else "serviceTxPkts"),
                           "pass %d (failing %r) raised %r" % (p, failing, ex)))
@@ -151,22 +159,27 @@ def run_case(variant, q, masks):
             sent[i] = True
         if fails:
             break
-        if once:
-            if len(now) > 1:
-                fails.append(("once-sent-many", "serviceTxPktsOnce sent %d packets in one call" % len(now)))
-                break
-            if p >= len(masks) and pending and not now:
-                fails.append(("once-healthy-call-sent-nothing", "call %d: nothing fails, %d packets pending, none sent"
+        if once and len(now) > (1 if percall else max(1, len(pending))):
+            fails.append(("once-sent-many", "%d serviceTxPktsOnce call(s) sent %d packets"
+                          % (1 if percall else max(1, len(pending)), len(now))))
+            break
+        if percall:
+            # per-call faults: only order / exactly-once (above) and progress of a healthy call are demanded
+            if mask == 0 and pending and not now:
+                fails.append(("healthy-once-call-sent-nothing", "call %d: nothing fails, %d packets pending, none sent"
                               % (p, len(pending))))
                 break
-        else:
-            missed = [i for i in pend_ok if not sent[i]]
-            if missed:
-                sig = "blocked-by-failing-destination" if pend_fail else "healthy-pass-left-packets"
-                fails.append((sig, "pass %d: destinations %r fail; packets %r (destinations %r) do not fail in this pass "
-                              "and were queued, but were not sent in this pass"
-                              % (p, [d for d in range(3) if mask >> d & 1], missed, [q[i] for i in missed])))
-                break
+            continue
+        missed = [i for i in pend_ok if not sent[i]]
+        if missed:
+            sig = "blocked-by-failing-destination" if pend_fail else "healthy-pass-left-packets"
+            if once:
+                sig += "@serviceTxPktsOnce"
+            fails.append((sig, "pass %d%s: destinations %r fail; packets %r (destinations %r) do not fail in this pass "
+                          "and were queued, but were not sent in this pass"
+                          % (p, " (%d serviceTxPktsOnce calls)" % max(1, len(pending)) if once else "",
+                             [d for d in range(3) if mask >> d & 1], missed, [q[i] for i in missed])))
+            break
     if not fails:
         lost = [i for i in range(n) if not sent[i]]
         if lost or stack.txPkts:
@@ -189,19 +202,23 @@ def mask_sequences(present):
 
 
 def plan(tier):
-    shards = []
+    """Work units (variant, length, prefix) are dealt greedily to 8 (quick) / 16 (thorough) shards."""
+    units = []
     for variant in VARIANTS:
         nmax = NMAX[tier][variant]
-        # shard by (length, first two destinations) for balance
         for n in range(1, nmax + 1):
             if n <= 3:
-                shards.append({"variant": variant, "n": n, "prefix": []})
+                units.append((4 ** n, {"variant": variant, "n": n, "prefix": []}))
             else:
                 for a in range(3):
                     for b in range(3):
-                        shards.append({"variant": variant, "n": n, "prefix": [a, b]})
-    # big shards first
-    shards.sort(key=lambda s: -s["n"])
+                        units.append((4 ** n // 9, {"variant": variant, "n": n, "prefix": [a, b]}))
+    nshards = 8 if tier == "quick" else 16
+    shards = [{"i": i, "units": [], "w": 0} for i in range(nshards)]
+    for w, u in sorted(units, key=lambda x: (-x[0], x[1]["variant"], x[1]["prefix"])):
+        tgt = min(shards, key=lambda s: (s["w"], s["i"]))
+        tgt["units"].append(u)
+        tgt["w"] += w
     return shards
 
 
@@ -209,26 +226,37 @@ def work(shard, seed, tier):
     from vp.core.env import quiet_ioflo
     quiet_ioflo()
     acc = Acc()
-    variant, n, prefix = shard["variant"], shard["n"], list(shard["prefix"])
     seen_errnos = set()
-    for rest in itertools.product(range(3), repeat=n - len(prefix)):
-        q = prefix + list(rest)
-        present = 0
-        for d in q:
-            present |= 1 << d
-        for masks in mask_sequences(present):
-            fails, nt, raised = run_case(variant, q, masks)
-            seen_errnos.update(raised)
-            acc.evaluations += 1
-            if nt:
-                acc.nontrivial.add(_digest(variant, q, masks))
-            for sig, what in fails:
-                acc.fail(sig, what, explain(variant, q, masks))
-    acc.classes[variant + "-len%d" % n] += acc.evaluations
+    best = {}   # sig -> smallest failing case of this shard (reported first)
+    for unit in shard["units"]:
+        variant, n, prefix = unit["variant"], unit["n"], list(unit["prefix"])
+        count = 0
+        for rest in itertools.product(range(3), repeat=n - len(prefix)):
+            q = prefix + list(rest)
+            present = 0
+            for d in q:
+                present |= 1 << d
+            for masks in mask_sequences(present):
+                fails, nt, raised = run_case(variant, q, masks)
+                seen_errnos.update(raised)
+                count += 1
+                if nt:
+                    acc.nontrivial.add(_digest(variant, q, masks))
+                for sig, what in fails:
+                    acc.fail(sig, what, explain(variant, q, masks))
+                    size = (len(q), len(masks), sum(masks))
+                    if sig not in best or size < best[sig][0]:
+                        best[sig] = (size, what, explain(variant, q, masks))
+        acc.evaluations += count
+        acc.classes[variant + "-len%d" % n] += count
+        if len(acc.samples) < 2 and n >= 3:
+            acc.samples.append(explain(variant, prefix + [1] * (n - len(prefix)), [1, 0]))
     for e in seen_errnos:
-        acc.classes["errno-" + errno.errorcode.get(e, str(e))] += 1
-    if not acc.samples and n >= 3:
-        acc.samples.append(explain(variant, prefix + [0] * (n - len(prefix)), [1, 0]))
+        acc.classes["errno-" + errno.errorcode.get(e, str(e)) + "-seen-in-shards"] += 1
+    from vp.core.acc import Failure
+    for sig, (size, what, case) in best.items():
+        acc.failures[sig].insert(0, Failure(sig, "(smallest in shard) " + what, case))
+        del acc.failures[sig][3:]
     acc.exhaustive = True
     acc.note("every queue of length 1..N over 3 destinations x every sequence of 0..3 per-pass fault sets (over the "
              "destinations present) enumerated for each variant; N per variant/tier is in the rule")
